@@ -17,6 +17,7 @@ import common
 import minif
 from common import driver, sx, parse_sx
 from props import c04_real as R
+from props import c04_merge
 
 CORPUS = os.path.join(common.ROOT, "corpus", "C04")
 
@@ -437,7 +438,12 @@ def run(chk):
                        "ArrayAssignment2Loops transformations; (c) routines with <=3 levels of nested scopes whose "
                        "symbols are drawn from a pool of 6 clashing names, host-scope names from the same pool. "
                        "non-trivial = a table with at least one dependency / a unit with >=3 declarations / a merge "
-                       "that renamed something; distinct by canonical JSON")
+                       "that renamed something; (d) merge/rename with CodeBlocks: generated caller/callee modules for InlineTrans (locals "
+                       "printed by WRITE statements under mixed/upper-case spellings at routine level and inside IFs; "
+                       "callee imports or declares the same names; call possibly inside an IF) judged by refusal / "
+                       "CodeBlock-name resolution before vs after / compile-and-run of original vs transformed, and "
+                       "routines with nested IF scopes + API-added inner-scope symbols merged in place by routine_node; "
+                       "distinct by canonical JSON")
     chk.assumptions += ["the exporter's reading of which names a declaration uses (initial value, kind, array bounds, "
                         "type name, identifiers of unsupported declaration text) is trusted",
                         "gfortran 12 -fimplicit-none -fsyntax-only is the compile oracle",
@@ -447,6 +453,8 @@ def run(chk):
     if not chk.violations:
         chk.cov["merge_renamed_symbols"] = check_merge(chk, 1500 if thorough else 200)
     if not chk.violations:
+        chk.cov["merge_codeblock_families"] = c04_merge.check(chk, 250 if thorough else 24, 400 if thorough else 40)
+    if not chk.violations:
         check_programs(chk, 400 if thorough else 40)
     for e in common.known_findings("C04"):
         if replay_finding(e):
@@ -454,6 +462,8 @@ def run(chk):
 
 
 def replay(payload):
+    if payload.get("kind") == "merge-codeblock":
+        return c04_merge.replay(payload)
     if "src" in payload:
         res = run_program(payload["src"], payload.get("hist_seed", 0), payload.get("with_hist", False))
         print("status:", res["status"], res.get("detail", ""), "history:", res["hist"])
